@@ -56,7 +56,7 @@ def pat_s(p):
     return k
 if __name__=='__main__':
     import glob
-    F=Facts(sorted(glob.glob('/verif/.cache/facts/*-default.json'),key=__import__('os').path.getmtime)[-1])
+    from cao import extract as _ex; import os; F=Facts(_ex.get_facts(os.environ.get('REPO','/repo'),'default')[0])
     f=F.fn(sys.argv[1])
     lo=int(sys.argv[2]) if len(sys.argv)>2 else 0; hi=int(sys.argv[3]) if len(sys.argv)>3 else 10**9
     print('\n'.join(pp(f.hir['body'])[lo:hi]))
